@@ -81,6 +81,7 @@ type node struct {
 	nlink    int
 	mu       sync.RWMutex
 	mode     fs.FileMode
+	isDir    bool // isDir is true for a directory, it never changes and can be read without locking the node.
 }
 
 // OrefaInfo is the implementation of fs.FileInfo returned by Stat and Lstat.
